@@ -52,7 +52,7 @@ theorem Triple.ite {α} (c : Prop) [Decidable c] {P} {p q : Prog α} {Q}
 /-- a quiet state update keeps everything that only depends on the life-cycle view -/
 theorem Triple.quiet {P : St → Prop} (g : St → St) (hg : Quiet g) (hP : ∀ s, P s → P (g s)) :
     Triple P (modify g) (fun _ s => P s) :=
-  Triple.mod g fun s hI hp => ⟨Inv.congr (hg.sigs s) (hg.ctx s) hI, fun _ hM => Mono.congr_right (hg.sigs s) hM, hP s hp⟩
+  Triple.mod g fun s hI hp => ⟨Inv.congr (hg.sigs s) (hg.ctx s) (hg.next s) hI, fun _ hM => Mono.congr_right (hg.sigs s) hM, hP s hp⟩
 
 /-- facts about the life-cycle view that quiet updates and `curr_mod` updates preserve -/
 def ViewP (F : List Sig → Prop) : St → Prop := fun s => F s.sigs
@@ -88,7 +88,7 @@ theorem Triple.step {P Q R : St → Prop} (hR : Stable R) (g : St → St)
 
 theorem Triple.quietR {P R : St → Prop} (hR : Stable R) (g : St → St) (hg : Quiet g) (hP : ∀ s, P s → P (g s)) :
     Triple (fun s => P s ∧ R s) (Lm.Core.modify g) (fun _ s => P s ∧ R s) :=
-  Triple.mod g fun s hI hp => ⟨Inv.congr (hg.sigs s) (hg.ctx s) hI, fun _ hM => Mono.congr_right (hg.sigs s) hM,
+  Triple.mod g fun s hI hp => ⟨Inv.congr (hg.sigs s) (hg.ctx s) (hg.next s) hI, fun _ hM => Mono.congr_right (hg.sigs s) hM,
     hP s hp.1, hR.view _ _ (hg.sigs s) hp.2⟩
 
 theorem Triple.callR {R : St → Prop} (hR : Stable R) (cb m e) : Triple R (callCb cb m e) (fun _ => R) :=
@@ -122,7 +122,7 @@ theorem Triple.retR {α} {P R : St → Prop} (x : α) (h : ∀ s, P s → R s) :
 
 theorem Triple.quietS {R : St → Prop} (hR : Stable R) (g : St → St) (hg : Quiet g) :
     Triple R (Lm.Core.modify g) (fun _ => R) :=
-  Triple.mod g fun s hI hp => ⟨Inv.congr (hg.sigs s) (hg.ctx s) hI, fun _ hM => Mono.congr_right (hg.sigs s) hM,
+  Triple.mod g fun s hI hp => ⟨Inv.congr (hg.sigs s) (hg.ctx s) (hg.next s) hI, fun _ hM => Mono.congr_right (hg.sigs s) hM,
     hR.view _ _ (hg.sigs s) hp⟩
 
 /-- `stop(mod, stopping[, leave])`: for a module that is not a ZOMBIE (and, when pausing, is in its context).
@@ -134,7 +134,7 @@ theorem stopP_triple {R : St → Prop} (hR : Stable R) (m : ModId) (stopping lea
   refine Triple.bind (Q := fun _ s => R s ∧ ∃ g : Sig, s.sigs[m]? = some g ∧ g.state ≠ .zombie ∧ (stopping = false → g.inCtx = true ∧ leave = false)) ?_ fun _ => ?_
   · exact Triple.mod _ fun s hI hp =>
       have q := quiet_manageSrcsRm m stopping
-      ⟨Inv.congr (q.sigs s) (q.ctx s) hI, fun _ hM => Mono.congr_right (q.sigs s) hM, hR.view _ _ (q.sigs s) hp.1,
+      ⟨Inv.congr (q.sigs s) (q.ctx s) (q.next s) hI, fun _ hM => Mono.congr_right (q.sigs s) hM, hR.view _ _ (q.sigs s) hp.1,
         by rw [q.sigs s]; exact hp.2⟩
   have hS : Stable (fun s => R s ∧ (leave = true → OutOf m s)) :=
     ⟨fun s s' h hp => ⟨hR.view _ _ h hp.1, fun hl => (Stable.outOf m).view _ _ h (hp.2 hl)⟩,
@@ -195,7 +195,7 @@ theorem startP_triple {R : St → Prop} (hR : Stable R) (m : ModId) (starting : 
         (Lm.Core.modify g)
         (fun _ s => R s ∧ ∃ g : Sig, s.sigs[m]? = some g ∧ g.state ≠ .running ∧ g.state ≠ .zombie ∧ g.inCtx = true) :=
     fun g q => Triple.mod _ fun s hI hp =>
-      ⟨Inv.congr (q.sigs s) (q.ctx s) hI, fun _ hM => Mono.congr_right (q.sigs s) hM, hR.view _ _ (q.sigs s) hp.1,
+      ⟨Inv.congr (q.sigs s) (q.ctx s) (q.next s) hI, fun _ hM => Mono.congr_right (q.sigs s) hM, hR.view _ _ (q.sigs s) hp.1,
         by rw [q.sigs s]; exact hp.2⟩
   refine Triple.bind (qv _ (Quiet.ite _ (quiet_updMod m _ (fun md => rfl)) Quiet.id)) fun _ => ?_
   refine Triple.bind (qv _ (quiet_manageSrcsAdd m)) fun _ => ?_
@@ -323,5 +323,214 @@ theorem pushEvtP_triple {R : St → Prop} (hR : Stable R) (m : ModId) (e : Evt) 
           refine Triple.bind (Q := fun _ => R) ?_ fun _ => callPubsubCb_triple hR _ _
           exact Triple.weaken (Triple.quietS hR _ (quiet_updMod m _ (fun md => rfl))) (fun _ _ h => h.2) (fun _ _ _ h => h)
         · intro _; exact Triple.retR _ (fun _ h => h.2)
+
+
+theorem sig_of_mod (s : St) (m : ModId) (md : Mod) (h : s.mods[m]? = some md) : s.sigs[m]? = some md.sig := by
+  rw [sigs_getElem?, h]; rfl
+
+/-- `mod_deregister`: any stable fact survives, given that the auto-release program keeps it -/
+theorem modDeregCore_triple {R : St → Prop} (hR : Stable R) (ar : Prog Int) (har : Triple R ar (fun _ => R)) (m : ModId) :
+    Triple R (modDeregCore ar m) (fun _ => R) := by
+  unfold modDeregCore
+  refine Triple.bind Triple.get fun s => ?_
+  cases hma : modAssert s m with
+  | some e => exact Triple.retR _ (fun _ h => h.2)
+  | none =>
+    simp only
+    cases hmd : s.mods[m]? with
+    | none => exact Triple.retR _ (fun _ h => h.2)
+    | some md =>
+      cases hc : s.ctx with
+      | none => exact Triple.retR _ (fun _ h => h.2)
+      | some c =>
+        simp only
+        apply Triple.ite
+        · intro _; exact Triple.retR _ (fun _ h => h.2)
+        · intro _
+          apply Triple.ite
+          · intro _; exact Triple.retR _ (fun _ h => h.2)
+          · intro _
+            refine Triple.bind (Q := fun _ s' => R s' ∧ OutOf m s') ?_ fun _ => ?_
+            · refine Triple.weaken (stopP_triple hR m true true) ?_ (fun _ _ _ h => ⟨h.1, h.2 rfl⟩)
+              intro st _ ⟨he, hr⟩
+              subst he
+              refine ⟨hr, md.sig, sig_of_mod _ m md hmd, ?_, fun h => by cases h⟩
+              -- not a ZOMBIE: `M_MOD_ASSERT` passed
+              unfold modAssert at hma
+              simp only [hmd] at hma
+              intro hz
+              have : (md.state == MState.zombie) = true := by simpa [Mod.sig] using hz
+              simp [this] at hma
+            refine Triple.bind (Q := fun _ => R) ?_ fun _ => ?_
+            · refine Triple.mod _ fun st hI hp => ?_
+              obtain ⟨hr, g, hg, hout⟩ := hp
+              have hnr : g.state ≠ .running := by
+                rcases hI.out m g hg hout with h | h <;> (rw [h]; decide)
+              have hsig : (setState st m .zombie).sigs = st.sigs.set m (g.setState .zombie) := by
+                rw [setState_sigs]; simp [hg]
+              have hmono : Mono st (setState st m .zombie) :=
+                Mono_set st st _ m g _ (Mono.refl st) hg hsig (fun h => h) (fun _ => rfl) rfl rfl rfl rfl rfl
+              exact ⟨inv_zombie st m g hI hg hnr, fun _ hM => Mono.trans hM hmono, hR.mono _ _ hmono hr⟩
+            refine Triple.bind Triple.get fun s' => ?_
+            cases s'.ctx with
+            | none => exact Triple.retR _ (fun _ h => h.2)
+            | some c' =>
+              simp only
+              apply Triple.ite
+              · intro _; exact Triple.weaken har (fun _ _ h => h.2) (fun _ _ _ h => h)
+              · intro _; exact Triple.retR _ (fun _ h => h.2)
+
+/-- `m_map_iterate` over the module table -/
+theorem iterSlots_triple {R : St → Prop} (f : ModId → Prog Int) (hf : ∀ m, Triple R (f m) (fun _ => R)) :
+    ∀ (slots : List (Nat × Bool)) (again : Option Nat), Triple R (iterSlots f slots again) (fun _ => R) := by
+  intro slots
+  induction slots with
+  | nil => intro again; unfold iterSlots; exact Triple.retR _ (fun _ h => h)
+  | cons hd rest ih =>
+    intro again
+    obtain ⟨i, isRepeat⟩ := hd
+    unfold iterSlots
+    apply Triple.ite
+    · intro _; exact ih again
+    · intro _
+      refine Triple.bind Triple.get fun s => ?_
+      cases s.modAtSlot i with
+      | none => exact Triple.weaken (ih none) (fun _ _ h => h.2) (fun _ _ _ h => h)
+      | some m =>
+        simp only
+        refine Triple.bind (Q := fun _ => R) (Triple.weaken (hf m) (fun _ _ h => h.2) (fun _ _ _ h => h)) fun rc => ?_
+        apply Triple.ite
+        · intro _; exact Triple.retR _ (fun _ h => h)
+        · intro _
+          apply Triple.ite
+          · intro _; exact Triple.retR _ (fun _ h => h)
+          · intro _
+            refine Triple.bind Triple.get fun s' => ?_
+            apply Triple.ite
+            · intro _; exact Triple.weaken (ih (some i)) (fun _ _ h => h.2) (fun _ _ _ h => h)
+            · intro _
+              apply Triple.ite
+              · intro _; exact Triple.retR _ (fun _ h => h.2)
+              · intro _; exact Triple.weaken (ih none) (fun _ _ h => h.2) (fun _ _ _ h => h)
+
+theorem iterMods_triple {R : St → Prop} (f : ModId → Prog Int) (hf : ∀ m, Triple R (f m) (fun _ => R)) :
+    Triple R (iterMods f) (fun _ => R) := by
+  unfold iterMods
+  refine Triple.bind Triple.get fun s => ?_
+  apply Triple.ite
+  · intro _; exact Triple.retR _ (fun _ h => h.2)
+  · intro _; exact Triple.weaken (iterSlots_triple f hf _ _) (fun _ _ h => h.2) (fun _ _ _ h => h)
+
+theorem destroyLoop_triple {R : St → Prop} (hR : Stable R) : ∀ n, Triple R (destroyLoop n) (fun _ => R) := by
+  intro n
+  induction n with
+  | zero => unfold destroyLoop; exact Triple.retR _ (fun _ h => h)
+  | succ n ih =>
+    unfold destroyLoop
+    refine Triple.bind Triple.get fun s => ?_
+    apply Triple.ite
+    · intro _; exact Triple.retR _ (fun _ h => h.2)
+    · intro _
+      refine Triple.bind (Q := fun _ => R) ?_ fun r => ?_
+      · refine Triple.weaken (iterMods_triple _ fun m => modDeregCore_triple hR _ (Triple.retR _ (fun _ h => h)) m)
+          (fun _ _ h => h.2) (fun _ _ _ h => h)
+      apply Triple.ite
+      · intro _; exact Triple.retR _ (fun _ h => h)
+      · intro _; exact ih
+
+
+/-- a context update that touches neither identity nor running counter -/
+theorem Triple.updCtx {R : St → Prop} (hR : Stable R) (f : Ctx → Ctx) (hid : ∀ c, (f c).id = c.id)
+    (hrun : ∀ c, (f c).running = c.running) : Triple R (Lm.Core.modify fun s => s.updCtx f) (fun _ => R) :=
+  Triple.mod _ fun s hI hp => ⟨inv_updCtx s f hid hrun hI, fun _ hM => Mono.congr_right (by simp) hM, hR.view _ _ (by simp) hp⟩
+
+/-- `m_ctx_deregister` -/
+theorem ctxDeregisterP_triple {R : St → Prop} (hR : Stable R) : Triple R ctxDeregisterP (fun _ => R) := by
+  unfold ctxDeregisterP
+  refine Triple.bind Triple.get fun s => ?_
+  cases mctx s with
+  | none => exact Triple.retR _ (fun _ h => h.2)
+  | some c =>
+    simp only
+    apply Triple.ite
+    · intro _; exact Triple.retR _ (fun _ h => h.2)
+    · intro _
+      apply Triple.ite
+      · intro _; exact Triple.retR _ (fun _ h => h.2)
+      · intro _
+        refine Triple.bind (Q := fun _ => R) ?_ fun _ => ?_
+        · exact Triple.weaken (Triple.updCtx hR _ (fun _ => rfl) (fun _ => rfl)) (fun _ _ h => h.2) (fun _ _ _ h => h)
+        refine Triple.bind (Q := fun _ => R) (destroyLoop_triple hR _) fun _ => ?_
+        refine Triple.bind (Q := fun _ => R) ?_ fun _ => Triple.retR _ (fun _ h => h)
+        exact Triple.mod _ fun st hI hp => ⟨inv_ctx_none st _ hI, fun _ hM => Mono.congr_right rfl hM, hR.view st _ rfl hp⟩
+
+theorem modDeregisterP_triple {R : St → Prop} (hR : Stable R) (m : ModId) : Triple R (modDeregisterP m) (fun _ => R) :=
+  modDeregCore_triple hR _ (ctxDeregisterP_triple hR) m
+
+/-- loop-stop flush of one module -/
+theorem flushModP_triple {R : St → Prop} (hR : Stable R) (m : ModId) : Triple R (flushModP m) (fun _ => R) := by
+  unfold flushModP
+  refine Triple.bind Triple.get fun s => ?_
+  cases hmd : s.mods[m]? with
+  | none => exact Triple.retR _ (fun _ h => h.2)
+  | some md =>
+    simp only
+    cases md.pipe with
+    | none => exact Triple.retR _ (fun _ h => h.2)
+    | some q =>
+      simp only
+      apply Triple.ite
+      · intro _
+        refine Triple.bind (Q := fun _ => R) ?_ fun _ => ?_
+        · exact Triple.weaken (Triple.quietS hR _ (quiet_updMod m _ (fun md => rfl))) (fun _ _ h => h.2) (fun _ _ _ h => h)
+        refine Triple.bind (Q := fun _ => R) (callPubsubCb_triple hR _ _) fun _ => ?_
+        refine Triple.bind Triple.get fun s' => ?_
+        apply Triple.ite
+        · intro hc
+          refine Triple.bind (Q := fun _ => R) ?_ fun _ => Triple.retR _ (fun _ h => h)
+          refine Triple.weaken (stopP_triple hR m true false) ?_ (fun _ _ _ h => h.1)
+          intro st _ ⟨he, hr⟩
+          subst he
+          simp only [Bool.and_eq_true] at hc
+          obtain ⟨g, hg, hs⟩ := sig_of_isRP _ m hc.2
+          refine ⟨hr, g, hg, ?_, fun h => by cases h⟩
+          rcases hs with h | h <;> (rw [h]; decide)
+        · intro _; exact Triple.retR _ (fun _ h => h.2)
+      · intro _
+        refine Triple.bind (Q := fun _ => R) ?_ fun _ => Triple.retR _ (fun _ h => h)
+        refine Triple.weaken (Triple.quietS hR _ ?_) (fun _ _ h => h.2) (fun _ _ _ h => h)
+        exact Quiet.comp (quiet_updMod m (fun md => { md with pipe := some [] }) (fun md => rfl)) (Quiet.foldl destroyMsg quiet_destroyMsg q)
+
+/-- `loop_start` -/
+theorem loopStartP_triple {R : St → Prop} (hR : Stable R) : Triple R loopStartP (fun _ => R) := by
+  unfold loopStartP
+  refine Triple.bind (Q := fun _ => R) (Triple.updCtx hR _ (fun _ => rfl) (fun _ => rfl)) fun _ => ?_
+  refine Triple.bind (Q := fun _ => R) (iterMods_triple _ (evaluateP_triple hR)) fun _ => ?_
+  refine Triple.bind (Q := fun _ => R) (Triple.quietS hR _ (quiet_tellSystem _ _ _ _)) fun _ => ?_
+  refine Triple.bind (Q := fun _ => R) (Triple.updCtx hR _ (fun _ => rfl) (fun _ => rfl)) fun _ => ?_
+  exact Triple.retR _ (fun _ h => h)
+
+/-- `loop_stop` -/
+theorem loopStopP_triple {R : St → Prop} (hR : Stable R) : Triple R loopStopP (fun _ => R) := by
+  unfold loopStopP
+  refine Triple.bind Triple.get fun s0 => ?_
+  refine Triple.bind (Q := fun _ => R) ?_ fun _ => ?_
+  · exact Triple.weaken (Triple.updCtx hR _ (fun _ => rfl) (fun _ => rfl)) (fun _ _ h => h.2) (fun _ _ _ h => h)
+  refine Triple.bind (Q := fun _ => R) (Triple.quietS hR _ (quiet_tellSystem _ _ _ _)) fun _ => ?_
+  refine Triple.bind (Q := fun _ => R) (iterMods_triple _ (flushModP_triple hR)) fun _ => ?_
+  refine Triple.bind Triple.get fun s => ?_
+  cases s.ctx with
+  | none => exact Triple.retR _ (fun _ h => h.2)
+  | some c =>
+    simp only
+    apply Triple.ite
+    · intro _; exact Triple.retR _ (fun _ h => h.2)
+    · intro _
+      refine Triple.bind (Q := fun _ => R) ?_ fun _ => ?_
+      · exact Triple.weaken (Triple.updCtx hR _ (fun _ => rfl) (fun _ => rfl)) (fun _ _ h => h.2) (fun _ _ _ h => h)
+      apply Triple.ite
+      · intro _
+        refine Triple.bind (Q := fun _ => R) (ctxDeregisterP_triple hR) fun _ => Triple.retR _ (fun _ h => h)
+      · intro _; exact Triple.retR _ (fun _ h => h)
 
 end Lm.Core
